@@ -472,6 +472,41 @@ func runCaseInner(c Case, o *kit.Obs) *kit.Failure {
 	if d := pq.DiffStreams(cols, wantStreams, refStreams); d != "" {
 		return kit.Failf("c18/independent-reader-differs"+feat, "%s", d)
 	}
+	// 2b. the offset index describes the encrypted pages as they sit in the file: a reader that fetches a page
+	// by (offset, compressed_page_size) must get its header and body modules, no more, no less
+	if lf, err := parquet.OpenFile(bytes.NewReader(data), int64(len(data)), parquet.WithDecryption(ring)); err == nil {
+		type span struct{ off, size int64 }
+		pagesOf := map[[2]int][]span{}
+		for _, m := range ef.Modules {
+			k := [2]int{m.RG, m.Col}
+			switch m.Kind {
+			case "page-header":
+				pagesOf[k] = append(pagesOf[k], span{m.Offset, int64(m.Len)})
+			case "page-body":
+				if n := len(pagesOf[k]); n > 0 {
+					pagesOf[k][n-1].size += int64(m.Len)
+				}
+			}
+		}
+		for gi, rg := range lf.RowGroups() {
+			for ci, cc := range rg.ColumnChunks() {
+				oi, err := cc.OffsetIndex()
+				if err != nil || oi == nil {
+					continue
+				}
+				pages := pagesOf[[2]int{gi, ci}]
+				if oi.NumPages() != len(pages) {
+					return kit.Failf("c18/offset-index-pages"+feat, "row group %d column %d: the offset index lists %d pages, the file holds %d encrypted data pages", gi, ci, oi.NumPages(), len(pages))
+				}
+				for pi := range pages {
+					if oi.Offset(pi) != pages[pi].off || oi.CompressedPageSize(pi) != pages[pi].size {
+						return kit.Failf("c18/offset-index-location"+feat, "row group %d column %d page %d of %d: the offset index says (offset %d, compressed size %d), the page's header and body modules are at offset %d and take %d bytes",
+							gi, ci, pi, len(pages), oi.Offset(pi), oi.CompressedPageSize(pi), pages[pi].off, pages[pi].size)
+					}
+				}
+			}
+		}
+	}
 	// 3. no plaintext leak
 	for _, m := range markers {
 		if i := bytes.Index(data, m); i >= 0 {
